@@ -539,9 +539,31 @@ impl Check for C07 {
             d
         }).collect();
         out.append(&mut via_fn);
-        out.into_iter().map(|d| serde_json::to_value(d).unwrap()).collect()
+        let mut out: Vec<Value> = out.into_iter().map(|d| serde_json::to_value(d).unwrap()).collect();
+        // a choice between two different adjacent groups (C19's block scanner), bare / optional /
+        // repeated, beside a switch declared before or after it
+        for w in [crate::checks::c19::W::Bare, crate::checks::c19::W::Opt, crate::checks::c19::W::Many] {
+            for v in [crate::checks::c19::V::Absent, crate::checks::c19::V::Before, crate::checks::c19::V::After] {
+                out.push(json!({"twokinds": crate::checks::c19::Def { g: crate::checks::c19::G::TwoKinds, w, t: crate::checks::c19::T::None, v, len: tier.pick(5, 6) }}));
+            }
+        }
+        out
     }
     fn run_unit(&self, unit: &Value, ctx: &mut Ctx) {
+        if let Some(t) = unit.get("twokinds") {
+            let d: crate::checks::c19::Def = serde_json::from_value(t.clone()).unwrap();
+            if let Ok(p) = build_checked(&crate::checks::c19::to_opts(&d)) {
+                let alpha = crate::checks::c19::alphabet_for(d.g);
+                tree(&alpha, d.len, &mut |argv| {
+                    ctx.begin_case(|| json!({"argv": argv}));
+                    ctx.s.evaluations += 1;
+                    ctx.s.states += 1;
+                    crate::checks::c19::judge_as("C07", &d, unit, &p, argv, ctx);
+                    true
+                });
+            }
+            return;
+        }
         let d: Def = serde_json::from_value(unit.clone()).unwrap();
         let p = match build_checked(&to_opts(&d)) {
             Ok(p) => p,
@@ -560,6 +582,15 @@ impl Check for C07 {
         });
     }
     fn replay(&self, unit: &Value, case: &Value, ctx: &mut Ctx) {
+        if let Some(t) = unit.get("twokinds") {
+            let d: crate::checks::c19::Def = serde_json::from_value(t.clone()).unwrap();
+            let argv: Vec<Tok> = serde_json::from_value(case["argv"].clone()).unwrap_or_default();
+            if let Ok(p) = build_checked(&crate::checks::c19::to_opts(&d)) {
+                ctx.s.evaluations += 1;
+                crate::checks::c19::judge_as("C07", &d, unit, &p, &argv, ctx);
+            }
+            return;
+        }
         let d: Def = serde_json::from_value(unit.clone()).unwrap();
         let argv: Vec<Tok> = serde_json::from_value(case["argv"].clone()).unwrap_or_default();
         if let Ok(p) = build_checked(&to_opts(&d)) {
